@@ -275,6 +275,17 @@ int main(int argc, char** argv) {
             for (auto& b : S2)
                 for (auto& d : S2)
                     for (auto& e : S2) tuples.push_back({a, b, d, e});
+        // more than 16 sequences: the exact splitter's multisequence_partition samples one element per sequence, and
+        // libstdc++'s std::sort is stable (insertion sort) up to 16 elements only
+        for (int k : {17, 24}) {
+            tuples.push_back(std::vector<std::vector<uint32_t>>(k, std::vector<uint32_t>{1}));
+            std::vector<std::vector<uint32_t>> alt, run;
+            for (int i = 0; i < k; ++i) alt.push_back({(uint32_t)(i % 2)});
+            tuples.push_back(alt);
+            for (int i = 0; i < k; ++i) run.push_back(i % 3 == 0 ? std::vector<uint32_t>{1, 1} : std::vector<uint32_t>{1});
+            tuples.push_back(run);
+        }
+        if (thorough) tuples.push_back(std::vector<std::vector<uint32_t>>(20, std::vector<uint32_t>{1, 1, 2}));
         // one dominant sequence
         tuples.push_back({{0, 0, 0, 1, 1, 1, 1, 2, 2, 2, 2, 2}, {1}, {0, 2}});
         tuples.push_back({{1}, {0, 0, 1, 1, 1, 1, 1, 1, 2, 2, 2, 2}, {}});
